@@ -47,7 +47,9 @@ def enc_ops(le, A, opcode_base, std_lengths, ops):
     return bytes(out)
 
 
-def enc_v5_value(le, O, form, v, lstr_offs, str_offs):
+def enc_v5_value(le, O, form, v, lstr_offs, str_offs, sup_offs=None):
+    if form in ('DW_FORM_strp_sup', 'DW_FORM_GNU_strp_alt'):
+        return u(le, O, sup_offs[v])
     if form == 'DW_FORM_string':
         return bytes(v) + b'\0'
     if form == 'DW_FORM_line_strp':
@@ -65,7 +67,7 @@ def enc_v5_value(le, O, form, v, lstr_offs, str_offs):
     raise ValueError(form)
 
 
-def enc_program(le, p, lstr_offs=None, str_offs=None):
+def enc_program(le, p, lstr_offs=None, str_offs=None, sup_offs=None):
     """-> bytes of one complete line-number program (header + opcodes)."""
     fmt, ver, A = p['fmt'], p['version'], p['addr_size']
     O = 4 if fmt == 32 else 8
@@ -85,7 +87,7 @@ def enc_program(le, p, lstr_offs=None, str_offs=None):
             h += uleb(len(p[entkey]))
             for ent in p[entkey]:
                 for (ct, form), v in zip(formats, ent):
-                    h += enc_v5_value(le, O, form, v, lstr_offs, str_offs)
+                    h += enc_v5_value(le, O, form, v, lstr_offs, str_offs, sup_offs)
     else:
         for d in p['dirs']:
             h += bytes(d) + b'\0'
